@@ -48,6 +48,10 @@ PROGRAMS = [
     'var f = 1; function outer() { var g = function f() { return f; }; return f; }',
     'function outer() { var g = function inner() { return inner; }; return [g, inner]; }',
     'function outer(cb) { cb(function again(n) { return n ? again(n - 1) : 0; }); var again = 2; return again; }',
+    # a catch clause directly at program level: the short names it may take must avoid the (unrenamed) top-level names used inside it
+    'var a = load(); try { a.run(); } catch (err) { report(a, err); }',
+    'var a = 1, b = 2; try { go(a); } catch (e1) { (function () { return [a, b, e1]; })(); }',
+    'var c = 0, a = 1; try { x(); } catch (first) { try { y(); } catch (second) { z(a, c, first, second); } }',
 ]
 
 
